@@ -12,7 +12,8 @@ import csv
 from harness import core
 
 NAMES = {9: "tab", 10: "lf", 11: "vt", 12: "ff", 13: "cr"}
-ESCAPED = {9: '"\\t"', 10: '"\\n"', 13: '"\\r"', 0: '"\\x00"', 92: '"\\\\"', 127: '"\\x7f"', 228: '"\\xe4"', 8364: '"\\u20ac"'}
+ESCAPED = {9: '"\\t"', 10: '"\\n"', 13: '"\\r"', 0: '"\\x00"', 92: '"\\\\"', 127: '"\\x7f"', 201: '"\\xc9"', 228: '"\\xe4"', 8364: '"\\u20ac"'}
+ALLOWED = {"range": ("32...127", [[32, 127]]), "letters": ('"A"..."Z", 0xc9', [[65, 90], [201, 201]])}
 MALFORMED = {"empty": [""], "twochars": ['"ab"', "'xy'"], "unknownname": ["foo", "tabulator"], "float": ["1.5"],
              "unterminated": ["'ab", '"x'], "junk": ["x", "1.5", ""]}
 LINE = {"lf": "\n", "cr": "\r", "crlf": "\r\n", "any": "any", "none": None}
@@ -41,7 +42,7 @@ def spell_value(prop, v, variant):
         if prop == "encoding":
             return ["utf-8", "ascii", "iso-8859-15", "cp1252"][variant % 4] if name == "known" else "no-such-encoding"
         if prop == "allowed_characters":
-            return "32...127" if name == "range" else "32...x y"
+            return ALLOWED[name][0] if name in ALLOWED else "32...x y"
         return [name, name.upper(), name.capitalize()][variant % 3]
     if kind == "int":
         return str(v["n"])
@@ -63,7 +64,9 @@ def project(data_format):
 
     result["header"] = [data_format.header]
     result["encoding"] = [data_format.encoding]
-    result["allowed_characters"] = ["none" if data_format.allowed_characters is None else "range"]
+    result["allowed_characters"] = ["none"] if data_format.allowed_characters is None else [
+        [name for name, (text, items) in ALLOWED.items() if items == [list(item) for item in data_format.allowed_characters.items]
+         ] + ["other range %s" % data_format.allowed_characters]][0][:1]
     if fmt in ("excel", "ods"):
         result["sheet"] = [data_format.sheet]
     if fmt in ("delimited", "fixed"):
